@@ -669,3 +669,398 @@ class extrema_by:
         if t != "completed":
             return [], t
         return [items], t
+
+
+class count:
+    """len([x for x in h if predicate(x)])"""
+
+    def init(s):
+        s.n = 0
+        s.pfailed = False
+
+    def done(s):
+        return s.pfailed
+
+    def on_next(s, out, x):
+        if s.predicate:
+            try:
+                keep = s.predicate(x)
+            except Exception as e:
+                s.pfailed = True
+                out.on_error(e)
+                return
+            if not keep:
+                return
+        s.n = s.n + 1
+
+    def on_completed(s, out):
+        out.on_next(s.n)
+        out.on_completed()
+
+    @staticmethod
+    def ref(h, t, predicate):
+        try:
+            n = len([x for x in h if predicate(x)]) if predicate else len(h)
+        except Exception as e:
+            return [], ("error", e)
+        if t != "completed":
+            return [], t
+        return [n], t
+
+
+class sum_:
+    """sum(map(key_mapper, h)) - a left fold of + starting from 0"""
+
+    def init(s):
+        s.total = 0
+        s.kfailed = False
+        s.afailed = False
+
+    def done(s):
+        return s.kfailed or s.afailed
+
+    def on_next(s, out, x):
+        v = x
+        if s.key_mapper:
+            try:
+                v = s.key_mapper(x)
+            except Exception as e:
+                s.kfailed = True
+                out.on_error(e)
+                return
+        try:
+            tot = s.total + v
+        except Exception as e:
+            s.afailed = True
+            out.on_error(e)
+            return
+        s.total = tot
+
+    def on_completed(s, out):
+        out.on_next(s.total)
+        out.on_completed()
+
+    @staticmethod
+    def ref(h, t, key_mapper):
+        try:
+            r = sum(map(key_mapper, h)) if key_mapper else sum(h)  # (map is lazy: element by element)
+        except Exception as e:
+            return [], ("error", e)
+        if t != "completed":
+            return [], t
+        return [r], t
+
+
+class average:
+    """sum(map(key, h)) / len(h) with key = key_mapper or float; an empty sequence has no average"""
+
+    def init(s):
+        s.total = 0
+        s.n = 0
+        s.kfailed = False
+        s.afailed = False
+
+    def done(s):
+        return s.kfailed or s.afailed
+
+    def on_next(s, out, x):
+        try:
+            v = s.key_mapper(x) if s.key_mapper else float(x)
+        except Exception as e:
+            s.kfailed = True
+            out.on_error(e)
+            return
+        try:
+            tot = s.total + v
+        except Exception as e:
+            s.afailed = True
+            out.on_error(e)
+            return
+        s.total = tot
+        s.n = s.n + 1
+
+    def on_completed(s, out):
+        if s.n == 0:
+            out.on_error(SequenceContainsNoElementsError())
+            return
+        out.on_next(s.total / float(s.n))
+        out.on_completed()
+
+    @staticmethod
+    def ref(h, t, key_mapper):
+        try:
+            tot = 0
+            for x in h:  # (element by element: the first failing conversion or addition is the error)
+                tot = tot + (key_mapper(x) if key_mapper else float(x))
+        except Exception as e:
+            return [], ("error", e)
+        if t != "completed":
+            return [], t
+        if not h:
+            return [], ("error", SequenceContainsNoElementsError())
+        return [tot / float(len(h))], t
+
+
+class min_by:
+    """all elements whose key is minimal (sign = -1) / maximal (sign = +1) under comparer, in arrival order, at completion"""
+    sign = -1
+
+    def init(s):
+        s.has = False
+        s.last_key = None
+        s.items = []
+        s.failed = False
+
+    def done(s):
+        return s.failed
+
+    def compare(s, a, b):
+        if s.comparer:
+            c = s.comparer(a, b)
+        else:
+            c = (a > b) - (a < b)  # Python's own ordering of the keys
+        if s.sign < 0:
+            return -c
+        return c
+
+    def on_next(s, out, x):
+        try:
+            key = s.key_mapper(x)
+        except Exception as e:
+            s.failed = True
+            out.on_error(e)
+            return
+        comparison = 0
+        if not s.has:
+            s.has = True
+            s.last_key = key
+        else:
+            try:
+                comparison = s.compare(key, s.last_key)
+            except Exception as e:
+                s.failed = True
+                out.on_error(e)
+                return
+        if comparison > 0:
+            s.last_key = key
+            s.items = []
+        if comparison >= 0:
+            s.items.append(x)
+
+    def on_completed(s, out):
+        out.on_next(list(s.items))
+        out.on_completed()
+
+    @classmethod
+    def ref(cls, h, t, key_mapper, comparer):
+        best, items = None, []
+        try:
+            for x in h:  # (element by element: the first failing key or comparison is the error)
+                k = key_mapper(x)
+                if not items:
+                    best, items = k, [x]
+                    continue
+                c = comparer(k, best) if comparer else (k > best) - (k < best)
+                if cls.sign * c > 0:
+                    best, items = k, [x]
+                elif c == 0:
+                    items.append(x)
+        except Exception as e:
+            return [], ("error", e)
+        if t != "completed":
+            return [], t
+        if comparer is None and h:
+            want = min if cls.sign < 0 else max
+            assert key_mapper(items[0]) == want(key_mapper(x) for x in h)  # the literal Python meaning
+        return [items], t
+
+
+class max_by(min_by):
+    sign = 1
+
+
+class min_:
+    """min(h) (the first minimal element) under comparer; an empty sequence has none"""
+    sign = -1
+
+    def init(s):
+        s.has = False
+        s.best = None
+        s.failed = False
+
+    def done(s):
+        return s.failed
+
+    def on_next(s, out, x):
+        if not s.has:
+            s.has = True
+            s.best = x
+            return
+        try:
+            if s.comparer:
+                c = s.comparer(x, s.best)
+            else:
+                c = (x > s.best) - (x < s.best)  # Python's own ordering of the elements
+        except Exception as e:
+            s.failed = True
+            out.on_error(e)
+            return
+        if s.sign < 0:
+            c = -c
+        if c > 0:
+            s.best = x
+
+    def on_completed(s, out):
+        if not s.has:
+            out.on_error(SequenceContainsNoElementsError())
+            return
+        out.on_next(s.best)
+        out.on_completed()
+
+    @classmethod
+    def ref(cls, h, t, comparer):
+        try:
+            if comparer is None:
+                r = (min(h) if cls.sign < 0 else max(h)) if h else None
+            else:
+                r = None
+                for i, x in enumerate(h):
+                    if i == 0 or cls.sign * comparer(x, r) > 0:
+                        r = x
+        except Exception as e:
+            return [], ("error", e)
+        if t != "completed":
+            return [], t
+        if not h:
+            return [], ("error", SequenceContainsNoElementsError())
+        return [r], t
+
+
+class max_(min_):
+    sign = 1
+
+
+class to_set:
+    """set(h) at completion"""
+
+    def init(s):
+        s.items = set()
+
+    def on_next(s, out, x):
+        s.items.add(x)
+
+    def on_completed(s, out):
+        out.on_next(s.items)
+        s.items = set()
+        out.on_completed()
+
+    @staticmethod
+    def ref(h, t):
+        if t != "completed":
+            return [], t
+        return [set(h)], t
+
+
+class to_dict:
+    """{key_mapper(x): element_mapper(x) for x in h} at completion (later elements win)"""
+
+    def init(s):
+        s.d = dict()
+        s.failed = False
+
+    def done(s):
+        return s.failed
+
+    def on_next(s, out, x):
+        try:
+            key = s.key_mapper(x)
+        except Exception as e:
+            s.failed = True
+            out.on_error(e)
+            return
+        if s.element_mapper:
+            try:
+                element = s.element_mapper(x)
+            except Exception as e:
+                s.failed = True
+                out.on_error(e)
+                return
+        else:
+            element = x
+        s.d[key] = element
+
+    def on_completed(s, out):
+        out.on_next(s.d)
+        s.d = dict()
+        out.on_completed()
+
+    @staticmethod
+    def ref(h, t, key_mapper, element_mapper):
+        try:
+            d = {key_mapper(x): (element_mapper(x) if element_mapper else x) for x in h}
+        except Exception as e:
+            return [], ("error", e)
+        if t != "completed":
+            return [], t
+        return [d], t
+
+
+class sequence_equal:
+    """len(a) == len(b) and all(comparer(x, y) for x, y in zip(a, b)), decided as early as the two histories allow:
+    False at the first pair that differs or as soon as one side has an element the finished other side cannot match,
+    True when both completed with nothing unmatched.  Source 0 is the left sequence, source 1 the right one; the
+    comparer always gets (left element, right element)."""
+
+    def init(s):
+        s.q = [[] for _ in range(s.n)]
+        s.done_ = [False] * s.n
+        s.term = False
+
+    def done(s):
+        return s.term
+
+    def compare(s, a, b):
+        if s.comparer:
+            return s.comparer(a, b)
+        return a == b
+
+    def on_next(s, out, i, x):
+        o = 1 - i
+        if len(s.q[o]) > 0:
+            v = s.q[o].pop(0)
+            try:
+                if i == 0:
+                    equal = s.compare(x, v)
+                else:
+                    equal = s.compare(v, x)
+            except Exception as e:
+                s.term = True
+                out.on_error(e)
+                return
+            if not equal:
+                s.term = True
+                out.on_next(False)
+                out.on_completed()
+        elif s.done_[o]:
+            s.term = True
+            out.on_next(False)
+            out.on_completed()
+        else:
+            s.q[i].append(x)
+
+    def on_error(s, out, i, e):
+        s.term = True
+        out.on_error(e)
+
+    def on_completed(s, out, i):
+        o = 1 - i
+        s.done_[i] = True
+        if len(s.q[i]) == 0:
+            if len(s.q[o]) > 0:
+                s.term = True
+                out.on_next(False)
+                out.on_completed()
+            elif s.done_[o]:
+                s.term = True
+                out.on_next(True)
+                out.on_completed()
